@@ -1806,6 +1806,27 @@ class Exec:
             raise Unsupported("call to %s at line %d" % (nm, e.lineno))
         if isinstance(f, ast.Name) and isinstance(st.locals.get(f.id), FnVal):
             return st.locals[f.id](*[self.eval(st, a) for a in e.args])
+        if isinstance(f, ast.Attribute) and isinstance(f.value, ast.Call) and isinstance(f.value.func, ast.Name) \
+                and f.value.func.id == "super":
+            # super(Class, self).method(...): resolved statically in the bases of Class
+            sargs = f.value.args
+            cls = sargs[0].id if sargs else self.clsname
+            recv = st.locals.get("self")
+            if cls not in self.repo.classes or not isinstance(recv, ObjRef):
+                raise Unsupported("super() call")
+            owner, m = None, None
+            for b in self.repo.classes[cls].bases:
+                owner, m = self.repo.find_method(b, f.attr)
+                if m is not None:
+                    break
+            if m is None:
+                raise Unsupported("super().%s not found" % f.attr)
+            args = [self.eval(st, a) for a in e.args]
+            kwargs = {k.arg: self.eval(st, k.value) for k in e.keywords}
+            q = self.method_qualname(owner, f.attr)
+            if q in REGISTRY and not REGISTRY[q].inline:
+                return self.contract_call(st, q, recv, args, kwargs, e)
+            return self.inline_call(st, m, owner, [recv] + args, e, kwargs=kwargs)
         if isinstance(f, ast.Attribute):
             # module functions
             if isinstance(f.value, ast.Name) and f.value.id in self.aliases and f.value.id not in st.locals:
